@@ -17,6 +17,26 @@ SIM_NOTE = ("Trusted base: the simulated kernel / psutil.Popen fake "
             "EPERM, job-control stops. Search never proves absence.")
 
 TABLE = {
+ "C16": dict(
+  engine="E2-pure", category="exploration", design_ref="DESIGN.md §4 C16",
+  technique="property-based testing with a constructive oracle: a generated configuration model (typed options in varied spellings, env layers, references) is rendered to ini text; get_config's result is compared with values computed from the model (documented types/defaults/precedence), plus determinism and section-reordering metamorphic relations",
+  text=("Generated ini files with watcher, env, env:PATTERN (comma lists, "
+        "wildcards), socket and plugin sections, all documented option types "
+        "and references in any case are parsed by get_config; option values, "
+        "types, defaults and each watcher's environment are compared with "
+        "the model's expectation; parsing twice and re-rendering in another "
+        "section order must agree."),
+  note="Pure function check; daemon environment = test process environ + scratch VERIF_* variables; ini-reserved characters excluded from alphabets."),
+ "C17": dict(
+  engine="E1-simworld", category="exploration", design_ref="DESIGN.md §4 C17",
+  technique="property-based testing with real pipes inside the simulated world: generated write-size schedules, closes, sibling deaths/respawns on 1-4 workers x 2 channels; oracle compares records received by a collecting stream with the bytes written (equality / prefix), watches for a spinning loop and counts daemon-side descriptors over worker generations",
+  text=("The real Redirector reads real pipes through the loop's selector; "
+        "after every generated op the records delivered to the collecting "
+        "stream objects must be, per pid and channel, exactly (alive) or a "
+        "prefix of (terminated) what was written, correctly labelled; a "
+        "closed pipe must leave the loop idle; descriptor count must return "
+        "to baseline after up to 25 worker generations."),
+  note=SIM_NOTE + " Pipes, selector and os.read are real."),
  "C18": dict(
   engine="E1-simworld", category="exploration", design_ref="DESIGN.md §4 C18",
   technique="exhaustive table (every signal name x spelling x acceptor) + Hypothesis-generated near-miss designations + generated signal/kill requests addressing own, foreign, unrelated and dead pids on a simulated kernel whose signal log is compared with the addressed set derived from its process tree",
